@@ -3,6 +3,7 @@
    the host model against the hypothesis records of the URL-level theorems and against the Standard's host
    parser: Proofs/C09_Inst.v, C09_InstSpec.v, Inst_Host.v (last sections). *)
 From Coq Require Import String.
+From RU Require Import Model.Uts46 Proofs.Idna_Known Proofs.Idna_Hyp Proofs.C09_InstIdna.
 From RU Require Import Model.UrlRecord Model.Parser Model.Setters Model.WF Model.Origin Spec.Whatwg Spec.WhatwgHostParse
   Proofs.C02_Reach Proofs.C02_AuthParts Proofs.C02_Auth Proofs.C02_AuthMain
   Proofs.C05_Enc Proofs.C05_Parser Proofs.C05_Setters Proofs.C05_History Proofs.C05_Sharp Proofs.C06_Host Proofs.C06_Main
@@ -349,6 +350,34 @@ Qed.
 Check C09_opaque_display_rt_any : forall input h,
   host_parse_opaque input = Ok h -> host_parse_opaque (host_display h) = Ok h.
 Print Assumptions C09_opaque_display_rt_any.
+
+(* ---- what IdnaOK amounts to for the IDNA model ----
+   idna_of A cfg = the function host.rs calls (domain_to_ascii_cow(bytes, AsciiDenyList::URL) of Model/Uts46.v,
+   on byte lists).  IdnaOK (idna_of A cfg) follows from three facts about ToASCII, two of them statements of
+   C10: C10_ascii_statement (ASCII, lower case, outside the deny list - the deny list regenerated from host.rs is
+   the URL list of uts46.rs plus upper case), idempotence at the URL options (C10_idem_statement claims it
+   outside Known_C12), and: dotted-decimal text is mapped to itself. *)
+Theorem C09_idna_premise : forall A cfg,
+  C10_ascii_statement A cfg -> idem_url A cfg -> v4_fixed A cfg -> IdnaOK (idna_of A cfg).
+Proof. exact IdnaOK_of_model. Qed.
+Check C09_idna_premise : forall A cfg,
+  C10_ascii_statement A cfg ->
+  (forall d b r, bytes d -> to_ascii A cfg d DENY_URL HAllow DIgnore = U32_c13.Ok (b, r) ->
+     exists b', to_ascii A cfg r DENY_URL HAllow DIgnore = U32_c13.Ok (b', r)) ->
+  (forall a, a < 4294967296 ->
+     exists b, to_ascii A cfg (ipv4_display a) DENY_URL HAllow DIgnore = U32_c13.Ok (b, ipv4_display a)) ->
+  IdnaOK (idna_of A cfg).
+Print Assumptions C09_idna_premise.
+
+Example C09_idna_premise_instances :
+  idna_of toy true [65; 98; 46; 99] = Some [97; 98; 46; 99]
+  /\ idna_of toy true [97; 98; 46; 99] = Some [97; 98; 46; 99]
+  /\ idna_of toy true (ipv4_display 16909060) = Some (ipv4_display 16909060)
+  /\ idna_of toy true [97; 32; 98] = None
+  /\ idna_of toy true [97; 300] = None
+  /\ host_parse (idna_of toy true) [65; 98; 46; 99] = Ok (HDomain [97; 98; 46; 99])
+  /\ host_parse (idna_of toy true) [48; 120; 49; 46; 50] = Ok (HIpv4 16777218).
+Proof. exact idna_of_examples. Qed.
 
 (* ====================================================================================== *)
 (* The Standard's host parser and serializer                                                *)
